@@ -14,9 +14,19 @@ from soundevent.geometry.operations import compute_bounds, get_geometry_point
 def main():
     s = StandIn("geometry_measures", "random valid geometries (<=7 vertices per ring, <=2 holes, <=3 parts), incl. degenerate and domain-edge ones")
     n = 120 if s.tier == "quick" else 2000
+    from soundevent import data
+    M = data.MAX_FREQUENCY
+    # geometries ON the edges of the domain: zero time, zero frequency (also as the HIGH frequency), MAX_FREQUENCY, zero extent
+    fixed = {"BoundingBox": [[1.0, 0.0, 3.0, 0.0], [2.0, 0.0, 2.0, 0.0], [0.0, 0.0, 0.0, 0.0], [0.0, 0.0, 4.0, float(M)], [1.0, float(M), 2.0, float(M)]],
+             "TimeInterval": [[0.0, 0.0], [0.0, 2.5]], "TimeStamp": [0.0], "Point": [[0.0, 0.0], [3.0, float(M)]],
+             "LineString": [[[0.0, 0.0], [2.0, 0.0]], [[1.0, float(M)], [1.0, 0.0]]], "MultiPoint": [[[0.0, 0.0], [0.0, float(M)]]]}
     for kind in TYPES:
-        for j in range(n):
-            g = random_geometry(s.rng, kind, edge=(j % 4 == 0))
+        pool = [getattr(data, kind)(coordinates=c) for c in fixed.get(kind, [])]
+        for j in range(n + len(pool)):
+            if j < len(pool):
+                g = pool[j]
+            else:
+                g = random_geometry(s.rng, kind, edge=(j % 4 == 0))
             for _ in range(20):  # the generator aims at valid geometries; re-draw the rare invalid one
                 if G.valid_geometry(g):
                     break
